@@ -13,6 +13,19 @@ for o in obs:
         claimed.setdefault(p, {'quick': False, 'thorough': False})
         for t in o['tiers']:
             claimed[p][t] = True
+def technique(p):
+    mine = [o for o in obs if p in [o['property']] + o.get('also', [])]
+    solvers = sorted({o.get('solver', 'z3') for o in mine})
+    t = ('bounded symbolic execution of the go/ssa of /repo (own interpreter, regenerated from the working tree on every run) '
+         'with SMT (' + ', '.join(solvers) + ') discharge of path feasibility and assertions over all symbolic inputs within the stated bounds; '
+         'counterexamples replayed natively against the real build')
+    pools = [o['name'] for o in mine if any(w in (o.get('bounds', '') + ' ' + ' '.join(o.get('assumptions', []))).lower() for w in ('pool', 'concrete'))]
+    if pools:
+        t += ('; in the obligations ' + ', '.join(sorted(set(pools))) + ' part or all of the input is drawn from finite pools of concrete values '
+              '(library conversions the engine does not encode run natively), every member of which is explored: there the claim is exhaustive over the pool, not over all values')
+    return t
+
+
 checks, na = [], []
 for p in props:
     m = meta['properties'].get(p, {})
@@ -25,7 +38,7 @@ for p in props:
             'engine': 'gosym',
             'level_claimed': {'category': 'model_checking', 'text': m.get('text', ''), 'design_ref': m.get('design_ref', 'DESIGN.md section 7')},
             'level_note': m.get('note', ''),
-            'technique': 'bounded symbolic execution of the go/ssa of /repo (own interpreter) with SMT (z3) discharge of path conditions and assertions; counterexamples replayed natively',
+            'technique': technique(p),
         }
         if claimed[p]['thorough']:
             c['thorough_cmd'] = f'./bin/vcheck run --property {p} --tier thorough'
